@@ -1,4 +1,12 @@
 #!/bin/bash
+# Offline build of the Lean project and of the harness binaries (MANIFEST.setup_cmd).
 set -e
 cd "$(dirname "$0")"
-echo setup: nothing to build yet
+export GOPROXY=off GOSUMDB=off GOTOOLCHAIN=local GOFLAGS=
+(cd lean && lake build)
+mkdir -p bin evidence replays
+for d in harness/cmd/*/; do
+  n=$(basename "$d")
+  (cd harness && go build -o ../bin/$n ./cmd/$n)
+done
+echo setup done
